@@ -4,11 +4,9 @@ import IndicatifModel.Model.Adaptors
 -/
 namespace IndicatifModel.Adaptors
 
-def AFix.all : AFix := { f16 := true, f28 := true }
-
-/-- **C17 (counting), one call**: with the two async repairs every wrapped call moves the position
+/-- **C17 (counting), one call**: every wrapped call, as the wrappers are in the repository now, moves the position
 exactly as demanded -/
-theorem C17_counts_step (pos : Nat) (e : Ev) : posAfter AFix.all pos e = specAfter pos e := by
+theorem C17_counts_step (pos : Nat) (e : Ev) : posAfter AFix.current pos e = specAfter pos e := by
   cases e with
   | transfer r => cases r <;> rfl
   | readExact len r => cases r <;> rfl
@@ -22,10 +20,10 @@ theorem C17_counts_step (pos : Nat) (e : Ev) : posAfter AFix.all pos e = specAft
 
 /-- **every call sequence** -/
 theorem C17_counts (pos : Nat) (evs : List Ev) :
-    run AFix.all pos evs = (evs.foldl (fun (acc : Nat × List Nat) e => (specAfter acc.1 e, acc.2 ++ [specAfter acc.1 e])) (pos, [])).2 := by
+    run AFix.current pos evs = (evs.foldl (fun (acc : Nat × List Nat) e => (specAfter acc.1 e, acc.2 ++ [specAfter acc.1 e])) (pos, [])).2 := by
   have gen : ∀ (evs : List Ev) (pos : Nat) (pre : List Nat),
       (evs.foldl (fun (acc : Nat × List Nat) e => (specAfter acc.1 e, acc.2 ++ [specAfter acc.1 e])) (pos, pre)).2
-        = pre ++ run AFix.all pos evs := by
+        = pre ++ run AFix.current pos evs := by
     intro evs
     induction evs with
     | nil => intro pos pre; simp [run]
@@ -40,12 +38,12 @@ theorem C17_counts (pos : Nat) (evs : List Ev) :
 3 bytes consumed leaves the position at 20 instead of 3 (candidate F16) -/
 theorem C17_fails_unrepaired_fill :
     run {} 0 [.pollFillBuf (.ok 10), .pollFillBuf (.ok 10), .aconsume 3] = [10, 20, 20] ∧
-    run AFix.all 0 [.pollFillBuf (.ok 10), .pollFillBuf (.ok 10), .aconsume 3] = [0, 0, 3] := by
+    run AFix.current 0 [.pollFillBuf (.ok 10), .pollFillBuf (.ok 10), .aconsume 3] = [0, 0, 3] := by
   decide
 
 /-- nor does the pinned `AsyncSeek` wrapper (candidate F28) -/
 theorem C17_fails_unrepaired_seek :
-    run {} 5 [.pollComplete (.ok 17)] = [5] ∧ run AFix.all 5 [.pollComplete (.ok 17)] = [17] := by
+    run {} 5 [.pollComplete (.ok 17)] = [5] ∧ run AFix.current 5 [.pollComplete (.ok 17)] = [17] := by
   decide
 
 end IndicatifModel.Adaptors
